@@ -1,0 +1,47 @@
+package verifiable
+
+import (
+	"bytes"
+	"encoding/json"
+	"errors"
+
+	mt "github.com/iden3/go-merkletree-sql/v2"
+)
+
+// maxMTPSiblings is the number of levels the sibling bitmap of a serialized
+// Merkle tree proof can describe.
+const maxMTPSiblings = 240
+
+// decodeMTP decodes a Merkle tree proof that comes from untrusted JSON. The
+// decoder of go-merkletree-sql panics on a null sibling and on a proof with
+// more siblings than its bitmap can describe (its encoder panics on the
+// latter as well), so these shapes are reported as errors before it runs.
+// A missing or null proof decodes to nil.
+func decodeMTP(raw json.RawMessage) (*mt.Proof, error) {
+	if len(bytes.TrimSpace(raw)) == 0 || isJSONNull(raw) {
+		return nil, nil
+	}
+	var shape struct {
+		Siblings []json.RawMessage `json:"siblings"`
+	}
+	if err := json.Unmarshal(raw, &shape); err != nil {
+		return nil, err
+	}
+	if len(shape.Siblings) > maxMTPSiblings {
+		return nil, errors.New("merkle tree proof has too many siblings")
+	}
+	for _, s := range shape.Siblings {
+		if isJSONNull(s) {
+			return nil, errors.New("merkle tree proof has a null sibling")
+		}
+	}
+	var p mt.Proof
+	if err := json.Unmarshal(raw, &p); err != nil {
+		return nil, err
+	}
+	return &p, nil
+}
+
+func isJSONNull(raw json.RawMessage) bool {
+	return bytes.Equal(bytes.TrimSpace(raw), []byte("null"))
+}
